@@ -177,6 +177,13 @@ def c14(tier, seed):
             for p_ in sorted({-1, 0, 1, 3, n, 2 * n - 1 if n else 0, 2 * n + 1}):
                 for up in (0, 1):
                     rows.append((n, p_, up, "lin", spec))
+    # bounded sinks: an error reported by the sink for any piece must come back from the formatter
+    for n in ([0, 1, 3, 15, 16, 33, 1024, 1025, 2049] if tier == "quick" else [0, 1, 2, 3, 15, 16, 17, 33, 1000, 1023, 1024, 1025, 2047, 2048, 2049, 3000, 4096, 5000]):
+        for p_ in sorted({-1, 1, n, 2 * n + 1}):
+            full = 2 * n if p_ < 0 else min(p_, 2 * n)
+            caps = {0, 1, 2, 100, full - 1, full, full + 1, full - 2048, full - 2047, 2048, 2050, 4096, rng.randint(0, full + 1)}
+            for cap in sorted(x for x in caps if x >= 0):
+                rows.append((n, p_, rng.choice([0, 1]), "lin", "sink:%d" % cap))
     scn = os.path.join(c.dir, "hex.scn")
     open(scn, "w").write("".join(("%d %d %d %s %s" % r_).rstrip() + "\n" for r_ in rows))
     c.cov["exhaustive"] = True
@@ -217,6 +224,10 @@ def c13(tier, seed):
     for n in (0, 1, 2, 3, 5):
         z = [0] * n
         lines.append("nested0 %s %s" % (fmt(z), fmt(z)))
+    # zero-sized elements with a non-trivial PartialEq / PartialOrd (equal to nothing, like NaN), also nested
+    for n in (0, 1, 2, 3, 4, 5, 16):
+        z = [9] * n
+        lines.append("znan %s %s" % (fmt(z), fmt(z)))
     for n in (5, 16, 97):
         for _ in range(6 if tier == "quick" else 60):
             a = [rng.choice([0, 1, 2, 3]) for _ in range(n)]
@@ -234,7 +245,7 @@ def c13(tier, seed):
     open(scn, "w").write("\n".join(lines) + "\n")
     c.cov["exhaustive"] = True
     c.cov["bounds"] = {"model": "all pairs of sequences over %s for N <= %d" % (("{0,1,NaN}", 3) if tier == "quick" else ("{0,1,2,NaN}", 4)), "rows executed": len(lines),
-                       "element types": "u8, i32, f64 (NaN), String, nested GenericArray<u8, U2>; seeded random pairs at N = 5, 16, 97"}
+                       "element types": "u8, i32, f64 (NaN), String, nested GenericArray<u8, U2>, zero-sized never-equal unit type (plain and nested); seeded random pairs at N = 5, 16, 97"}
     run_aux(c, build_aux(), "cmp", scn, "compare")
     c.assumptions.append("Debug: the slice's own output is the oracle under 7 flag combinations; TLA+ carries only the equality")
     return c.finish()
